@@ -19,7 +19,7 @@ from vlib import Check, RunnerPool, compile_job, driver, hexs, unhex, log, known
 getcontext().prec = 60
 
 D15 = "D15-reread-11th-digit"
-D23 = "D23-exact-order"
+D23 = "C07-exact-order"
 
 BIN = {"add": "+", "sub": "-", "mul": "*", "mod": "%", "eq": "==", "ne": "!=", "lt": "<", "le": "<=",
        "gt": ">", "ge": ">="}
@@ -245,9 +245,9 @@ def gen_case(rng, kind, hist):
 # minimised past failures and the witnesses of the known findings: run first on every run
 CORPUS = [
     ("L", "0.12345678904"),                                   # D15 (known): prints 0.123456789, which != it
-    ("B", "lt", ("L", "1"), ("L", "1.000000000001"), False),  # D23 (known): < is exact although == is fuzzy
+    ("B", "lt", ("L", "1"), ("L", "1.000000000001"), False),  # C07-ORD (known): < is exact although == is fuzzy
     ("B", "le", ("L", "1.000000000001"), ("L", "1"), False),
-    ("U", "nth3", ("L", "3.000000000001"), False),            # D23: range test exact, before the int check
+    ("U", "nth3", ("L", "3.000000000001"), False),            # C07-ORD: range test exact, before the int check
     ("L", "0.99999999999"),                                   # D5 (fixed): compressed printed 0
     ("L", "-0.99999999999"),
     ("L", "0.999999999949"),
